@@ -1,7 +1,7 @@
 (* C12 - errors are located, counted and never yield a partial report.
    Property theorems only; proofs are in Proofs/ErrorsProofs.v.
    `parse_file file chain ls` is the model of instance_t::parse on the lines `ls` of `file`
-   reached through the include chain `chain`; `session fs` reads the -f files `fs` in order,
+   reached through the include chain `chain`; `session fs` reads all the -f files `fs` in order,
    and yields the messages on stderr, the error count, the exit status the parent process sees
    and whether the report command ran.  `items ls` cuts a file in front of every unindented
    non-blank line; `item_ok g` says that nothing in item `g` is rejected; `file_clean ls` that
@@ -109,26 +109,21 @@ Theorem status_nonzero_iff_errors : forall fs,
 Proof. exact session_status_iff. Qed.
 Print Assumptions status_nonzero_iff_errors.
 
-(* ---- several -f files: refuted -------------------------------------------------------------
-   session_t::read_data reads the files one after the other and journal_t::read_textual throws
-   error_count as soon as one file had errors, so the invalid items of later files get no
-   message.  The faithful model shows it: *)
-Theorem stops_at_first_failing_file : forall name ls rest,
-  file_clean ls = false -> session ((name, ls) :: rest) = session [(name, ls)].
-Proof. exact session_first_failure. Qed.
-Print Assumptions stops_at_first_failing_file.
+(* ---- several -f files -------------------------------------------------------------------------
+   session_t::read_data catches error_count per file, adds the counts up and goes on: every
+   invalid item of every -f file gets its message, in command-line order, and the count is the
+   sum over the files.  (Before fix b67234d reading stopped at the first file that had errors:
+   with -f a.dat -f b.dat and one unbalanced transaction in each, no message named b.dat.) *)
+Theorem every_file_reports_every_item : forall fs,
+  r_msgs (session fs) = flat_map (fun f => expected (fst f) [] 1 (items (snd f))) fs.
+Proof. exact session_msgs. Qed.
+Print Assumptions every_file_reports_every_item.
 
-Theorem every_invalid_item_reported_multi_file_refuted :
-  exists f1 f2 : Z * list line,
-    r_msgs (session [f2]) <> [] /\
-    forall m, In m (r_msgs (session [f1; f2])) -> m_file m <> fst f2.
-Proof.
-  exists (1, [LItem None true (Some 1); LSub None; LSub None]),
-         (2, [LItem None true (Some 1); LSub None; LSub None]).
-  split; [vm_compute; discriminate|].
-  vm_compute. intros m [<-|[]]. cbn. discriminate.
-Qed.
-Print Assumptions every_invalid_item_reported_multi_file_refuted.
+Theorem session_error_count_is_sum_over_files : forall fs,
+  r_errors (session fs) =
+  fold_right Z.add 0 (map (fun f => s_errs (parse_file (fst f) [] (snd f))) fs).
+Proof. exact session_errors_sum. Qed.
+Print Assumptions session_error_count_is_sum_over_files.
 
 (* ---- the hypotheses are satisfiable; the model computes ------------------------------------ *)
 (* a valid transaction, an unbalanced one (lines 5-7), one whose 2nd posting is malformed (class
@@ -144,6 +139,13 @@ Example sample_session :
   session [(1, sample_file)] =
   mk_result [mk_msg [] 1 7 1 (Some (5, 7)); mk_msg [] 1 10 3 None; mk_msg [(1, 13)] 2 1 2 None]
             3 3 false.
+Proof. vm_compute. reflexivity. Qed.
+
+(* two -f files with one unbalanced transaction each: both are reported, the count is 2 *)
+Example sample_two_files :
+  session [(1, [LItem None true (Some 1); LSub None; LSub None]);
+           (2, [LItem None true (Some 1); LSub None; LSub None])] =
+  mk_result [mk_msg [] 1 3 1 (Some (1, 3)); mk_msg [] 2 3 1 (Some (1, 3))] 2 2 false.
 Proof. vm_compute. reflexivity. Qed.
 
 Example sample_clean :
